@@ -34,7 +34,10 @@ Inductive case :=
 (* strconv.Quote(v) = q, strconv.Unquote(q) = uq *)
 | KQuote (v q : bytes) (uq : option bytes)
 (* strconv.Unquote(s) = r *)
-| KUnquote (s : bytes) (r : option bytes).
+| KUnquote (s : bytes) (r : option bytes)
+(* a call into the implementation panicked (fn = which call, on which input); of the modelled functions only
+   AsKVString can panic, and that is reported through KFPrint *)
+| KPanicked (fn : bytes) (input : bytes).
 
 Definition check (c : case) : bool :=
   match c with
@@ -79,6 +82,7 @@ Definition check (c : case) : bool :=
       end
   | KQuote v q uq => quote_ok v q uq && quote_fact_ok v q
   | KUnquote s r => unquote_fact_ok s r
+  | KPanicked _ _ => false
   end.
 
 Definition mismatches (l : list case) : list nat := mismatches_of check l.
